@@ -402,8 +402,14 @@ func (s *Sim) Sleep(d time.Duration, done <-chan struct{}, desc string) (cancell
 		select {
 		case <-tc:
 		case <-done:
-			cancelled = true
 		case <-s.abort:
+		}
+		// when the timer and the cancellation are due at the same virtual instant, select picks at
+		// random: decide the tie here (cancellation wins) so that the execution stays a function of the seed
+		select {
+		case <-done:
+			cancelled = true
+		default:
 		}
 		if d > 0 {
 			s.mu.Lock()
